@@ -1,7 +1,7 @@
 (** C05 — the host reads back the most recent log bytes, in order, at any moment.
     This file holds only the pinned statements; proofs are in SFV.Log.RingProofs. *)
-From Coq Require Import Arith List.
-From SFV Require Import Gen.LogGen Log.Ring Log.RingProofs.
+From Coq Require Import Arith List NArith Lia.
+From SFV Require Import Gen.LogGen Log.Ring Log.RingProofs Base.RsPrelude Gen.LogFnGen Log.LogGenEq.
 Import ListNotations.
 
 (** For every capacity, byte type and sequence of messages (hence every prefix of a sequence,
@@ -43,3 +43,41 @@ Proof. vm_compute. apply le_n_S, Nat.le_0_l. Qed.
 Example C05_example :
   host_view 4 (run 0 4 [[1;2;3];[4;5;6]]) = [3;4;5;6].
 Proof. vm_compute. reflexivity. Qed.
+
+(** * The ring model IS the code (tie by translation, T8)
+
+    [Gen/LogFnGen.v] is regenerated on every run from provider/src/log.rs by translators/rs2v: [Logs::append]
+    and [Logs::read_ptrs] mechanically translated ([usize] arithmetic at width [W], wrapping or panicking;
+    pointers into the ring as offsets, [None] = null).  In EVERY state reachable by logging messages, for
+    every message length that fits the pointer width, on both targets and in both overflow modes, the
+    translated Rust returns exactly the model's new bookkeeping and copy plan, and the translated
+    [read_ptrs] exactly the model's segments; nothing overflows. *)
+Theorem C05_code_append : forall W trap, (3 * LogFnGen.CAPACITY < 2 ^ W)%N ->
+  forall (msgs : list (list N)) (n : nat), (N.of_nat n < 2 ^ W)%N ->
+  let l := run 0%N CAPn msgs in
+  Logs_append W trap (conv l) (N.of_nat n) = GOk (conv (fst (append CAPn l n)), conv_plan (snd (append CAPn l n))).
+Proof.
+  intros W trap HW msgs n Hn l.
+  destruct (inv_run N 0%N CAPn C05_capacity_positive msgs) as (_ & Ho & Hl & _).
+  apply gen_append_eq; [exact HW|exact Ho| |exact Hn].
+  fold l in Hl. rewrite Hl. apply Nat.le_min_r.
+Qed.
+
+Theorem C05_code_read_ptrs : forall W trap, (3 * LogFnGen.CAPACITY < 2 ^ W)%N ->
+  forall (msgs : list (list N)),
+  let l := run 0%N CAPn msgs in
+  Logs_read_ptrs W trap (conv l) = GOk (conv_read (read_ptrs CAPn l)).
+Proof.
+  intros W trap HW msgs l.
+  destruct (inv_run N 0%N CAPn C05_capacity_positive msgs) as (_ & Ho & Hl & Hrel & _).
+  fold l in Ho, Hl, Hrel.
+  apply gen_read_ptrs_eq; [exact HW|exact Ho| |].
+  - rewrite Hl. apply Nat.le_min_r.
+  - intros Hlt. rewrite Hl in Hlt |- *.
+    assert (length (concat msgs) < CAPn) by (destruct (Nat.min_spec (length (concat msgs)) CAPn) as [[? E]|[? E]]; rewrite E in Hlt; lia).
+    rewrite (Hrel H). symmetry. apply Nat.min_l. lia.
+Qed.
+
+(** the width hypothesis holds on both targets; the capacity of the translation is the regenerated one *)
+Theorem C05_code_widths : (3 * LogFnGen.CAPACITY < 2 ^ 32)%N /\ (3 * LogFnGen.CAPACITY < 2 ^ 64)%N /\ N.of_nat LogGen.CAPACITY = LogFnGen.CAPACITY.
+Proof. split; [exact width_ok_32|]. split; [exact width_ok_64|exact cap_same]. Qed.
